@@ -192,6 +192,15 @@ func CmdCheck(args []string) int {
 		}(k, r)
 	}
 	wg.Wait()
+	// renamed loop counters: try the off-by-one readings of the contract's loop variable (sequential: VC
+	// generation shares loader state)
+	for _, k := range order {
+		r := results[k]
+		if r == nil || r.Err != "" || r.Trusted || !r.CounterFallback {
+			continue
+		}
+		results[k] = e.Rebind(r, SolveOptions{Timeout: *timeout, Dir: smtDir, NeedTwo: *tier == "thorough", Select: sel(k)})
+	}
 
 	known := loadKnownFindings(filepath.Join(*verif, "known-findings.txt"))
 	// collect
